@@ -1215,7 +1215,12 @@ func (c *Conn) writeCompressedMessages(codec CompressionCodec, msgs ...Message) 
 			}
 		},
 		func(deadline time.Time, size int) error {
-			return expectZeroSize(readArrayWith(&c.rbuf, size, func(r *bufio.Reader, size int) (int, error) {
+			// An error code reported by the broker for the partition is
+			// returned only after the whole response has been consumed,
+			// otherwise the bytes left behind would be read as the beginning
+			// of the next response.
+			var brokerErr error
+			err := expectZeroSize(readArrayWith(&c.rbuf, size, func(r *bufio.Reader, size int) (int, error) {
 				// Skip the topic, we've produced the message to only one topic,
 				// no need to waste resources loading it in memory.
 				size, err := discardString(r, size)
@@ -1231,9 +1236,10 @@ func (c *Conn) writeCompressedMessages(codec CompressionCodec, msgs ...Message) 
 						var p produceResponsePartitionV7
 						size, err := p.readFrom(r, size)
 						if err == nil && p.ErrorCode != 0 {
-							err = Error(p.ErrorCode)
-						}
-						if err == nil {
+							if brokerErr == nil {
+								brokerErr = Error(p.ErrorCode)
+							}
+						} else if err == nil {
 							partition = p.Partition
 							offset = p.Offset
 							appendTime = time.Unix(0, p.Timestamp*int64(time.Millisecond))
@@ -1243,9 +1249,10 @@ func (c *Conn) writeCompressedMessages(codec CompressionCodec, msgs ...Message) 
 						var p produceResponsePartitionV2
 						size, err := p.readFrom(r, size)
 						if err == nil && p.ErrorCode != 0 {
-							err = Error(p.ErrorCode)
-						}
-						if err == nil {
+							if brokerErr == nil {
+								brokerErr = Error(p.ErrorCode)
+							}
+						} else if err == nil {
 							partition = p.Partition
 							offset = p.Offset
 							appendTime = time.Unix(0, p.Timestamp*int64(time.Millisecond))
@@ -1262,6 +1269,10 @@ func (c *Conn) writeCompressedMessages(codec CompressionCodec, msgs ...Message) 
 				// since it's not interesting here.
 				return discardInt32(r, size)
 			}))
+			if err == nil {
+				err = brokerErr
+			}
+			return err
 		},
 	)
 
